@@ -34,6 +34,21 @@ struct TriSys {
     std::string family;
 };
 
+// right-hand sides: mostly dense random, but also the sparse ones a line relaxation really produces (unit vectors, a zero head, a
+// zero tail, all zero) — a solve that short-cuts on zeros must still return the solution
+static void gen_rhs(Rng& rng, std::vector<double>& rhs)
+{
+    const int n = (int)rhs.size();
+    for (auto& v : rhs) v = std::ldexp(rng.uniform(-1, 1), rng.range(-8, 8));
+    if (n == 0) return;
+    const double u = rng.unit();
+    if (u < 0.60) return;
+    if (u < 0.72) { int j = rng.range(0, n - 1); double keep = rhs[j]; for (auto& v : rhs) v = 0.0; rhs[j] = rng.coin() ? 1.0 : keep; return; }
+    if (u < 0.82) { int k = rng.range(1, n); for (int i = 0; i < k && i < n - 1; i++) rhs[i] = 0.0; return; }          // zero head
+    if (u < 0.92) { int k = rng.range(1, n); for (int i = 0; i < k && i < n - 1; i++) rhs[n - 1 - i] = 0.0; return; }  // zero tail
+    if (u < 0.96) { for (auto& v : rhs) v = 0.0; return; }
+    for (auto& v : rhs) v = (double)rng.range(-3, 3);
+}
 static TriSys gen_tridiag(Rng& rng, int max_n)
 {
     static const std::vector<int> sizes = {2, 3, 4, 5, 8, 16, 31, 64, 257};
@@ -125,8 +140,7 @@ static int mode_tridiag(int cases, int max_n)
         std::vector<double> rhs(s.n), prev;
         for (int r = 0; r < k; r++) {
             bool repeat = r > 0 && rng.coin(0.5);
-            if (!repeat)
-                for (auto& v : rhs) v = std::ldexp(rng.uniform(-1, 1), rng.range(-8, 8));
+            if (!repeat) gen_rhs(rng, rhs);
             std::vector<double> x = rhs, t1(s.n), t2(s.n);
             t.solveInPlace(x.data(), t1.data(), t2.data());
             printf("S rep=%d rhs=%s x=%s\n", (int)repeat, hexvec(rhs).c_str(), hexvec(x).c_str());
@@ -214,7 +228,7 @@ static void emit_lu_case(const SpMat& m, bool trip_ctor, Rng& rng, int nrhs)
     SparseLUSolver<double> lu(A);
     for (int r = 0; r < nrhs; r++) {
         std::vector<double> rhs(m.n);
-        for (auto& v : rhs) v = std::ldexp(rng.uniform(-1, 1), rng.range(-8, 8));
+        gen_rhs(rng, rhs);
         Vector<double> x(rhs);
         lu.solveInPlace(x);
         printf("S rhs=%s x=%s\n", hexvec(rhs).c_str(), hexvec(x, m.n).c_str());
